@@ -15,7 +15,7 @@ Obs == <<Len(ch), capacity, available, inUse>>
 GenInit == Init /\ hist = <<>>
 
 GenNext == /\ ~Bad
-           /\ \E p \in Procs, a \in 0..1 :
+           /\ \E p \in Procs, a \in 0..2 :
                 /\ Step(p, a)
                 /\ hist' = Append(hist, [p |-> p, l |-> pc[p], a |-> a, r |-> slot[p], o |-> Obs'])
 
@@ -31,9 +31,11 @@ BadKinds == (IF NoOverAllocation THEN {} ELSE {"over-allocation"})
 Config == [clients |-> SetToSeq(Clients), max |-> MaxCap, init |-> InitCap, rounds |-> Rounds, sweeps |-> Sweeps,
            ticks |-> Ticks, setcap |-> SetCapTo, close |-> WithClose]
 
-AllEnded == \A p \in Procs : \/ pc[p] \in {"done", "dead", "off"}
-                             \/ p = "tick" /\ pc[p] = "t0" /\ stopTick
-                             \/ p = "sweep" /\ pc[p] = "i0" /\ stopSweep
+AllEnded == /\ lateN = 0
+            /\ \A p \in Procs : \/ pc[p] \in {"done", "dead", "off"}
+                                \/ p = "factory"
+                                \/ p = "tick" /\ pc[p] = "t0" /\ stopTick
+                                \/ p = "sweep" /\ pc[p] = "i0" /\ stopSweep
 
 Case(kind) == [kind |-> kind, cfg |-> Config, bad |-> SetToSeq(BadKinds), stale |-> stale,
                panic |-> panic, sched |-> hist, held |-> SetToSeq(held)]
